@@ -5,6 +5,11 @@ import pipelib as PL
 import pipecheck as PC
 
 
+NEAR = [('{"k":{},"n":1}', '{"k":{"n":1}}'), ('[[],1]', '[[1]]'), ('[1,[2]]', '[[1],2]'), ('"1"', '1'), ('[]', '{}'), ('""', 'null'), ('{"a":null}', '{}'),
+        ('[null]', '[]'), ('{"a":{"b":{}},"c":2}', '{"a":{"b":{"c":2}}}'), ('[{"a":{}},{"b":1}]', '[{"a":{"b":1}}]'), ('{"a":[],"b":[1]}', '{"a":[[],"b",[1]]}'),
+        ('"a\\u0000b"', '"a"'), ('[0]', '[false]'), ('{"a":1,"b":2}', '{"a":1,"b":2,"c":null}'), ('[[1,2],[3]]', '[[1],[2,3]]'), ('["ab","c"]', '["a","bc"]')]
+
+
 def gen_random(cs, rnd, n):
     for i in range(n):
         cfg = PL.mkcfg(unique=True)
@@ -23,9 +28,16 @@ def gen_random(cs, rnd, n):
         if not cfg["selects"] or rnd.random() < 0.5:
             rows = PL.strip_field(rows, "id")
         rows = PL.dup_rows(rnd, rows, p=0.6)[:40]
+        if rnd.random() < 0.5:
+            # different values that are close in shape (where a nested collection ends, empty collections, a number and its text): none equals another
+            for pair in rnd.sample(NEAR, 2):
+                bare = rnd.random() < 0.5
+                for t in pair:
+                    v = PL.parse_ast(t)
+                    rows.insert(rnd.randrange(len(rows) + 1), v if bare else ("obj", [(PL.cps("k1"), v), (PL.cps("g"), ("str", PL.cps("a")))]))
         # scalar rows repeated in other spellings too
         if rnd.random() < 0.5:
-            rows += [("num", rnd.choice(["1", "1.0", "1e0", "10e-1", "100e-2", "2", "2.0", "0.5", "5e-1", "50E-2"])) for _ in range(rnd.randrange(2, 8))]
+            rows += [("num", rnd.choice(["1", "1.0", "1e0", "10e-1", "100e-2", "2", "2.0", "0.5", "5e-1", "50E-2", "0", "0.0", "0e0", "0E3", "0.00"])) for _ in range(rnd.randrange(2, 8))]
             rnd.shuffle(rows)
         PC.add_rel(cs, "unique", cfg, PC.variant(cfg, unique=False), rows, rnd)
         cs.recipes[-1]["runs"][0]["stdin"] = cs.recipes[-1]["runs"][1]["stdin"] = hexs(PL.input_bytes(rows, rnd))   # escapes / spellings vary
